@@ -55,5 +55,16 @@ Theorem C10_server_base_end : forall (T : Type) (tp : transport T response cmsg)
   s_fused s' = true /\ s_timers s' = [] /\ s_cancels s' = [].
 Proof. exact ServerProps.C10_server_base_end. Qed.
 
+From TarpcV Require Import ServerFuel ServerSpec ServerProofsPA4 ServerProofsPB6 ServerProofsPC10 ServerProofsPC3.
+
+(* server MONITOR theorem: the Requests stream ends only after inbound end-of-stream was read,
+   with no request in flight and a completed flush after the last write *)
+Theorem C10_server_monitor : forall (T C : Type) (tp : transport T response cmsg) (ctl : T -> C -> T)
+    (tfuel : T -> nat) (c : cfg) (t0 : T) (ops : list (op C)),
+  tfuel_ok tp tfuel ->
+  c10s_ok c ops (fst (run tp ctl tfuel c t0 ops)) = true.
+Proof. exact s10_holds. Qed.
+
 Print Assumptions C10_client_monitor.
 Print Assumptions C10_server_base_end.
+Print Assumptions C10_server_monitor.
